@@ -66,7 +66,50 @@ fn run_case(version: http::Version, host: Option<&str>, uri: &str, sni: Option<&
     }
 }
 
+fn expected_forward(version: http::Version, host: Option<&str>, uri: &str, sni: Option<&str>) -> Option<bool> {
+    let parsed: http::Uri = uri.parse().ok()?;
+    let authority = parsed.authority().map(|a| a.as_str().to_string());
+    let named: Option<String> = if version == http::Version::HTTP_2 { authority.or(host.map(|h| h.to_string())) } else { host.map(|h| h.to_string()) };
+    let named = named?;
+    Some(sni.map(|s| host_without_port(&named).eq_ignore_ascii_case(s)).unwrap_or(false))
+}
+
+fn replay(path: &str) -> i32 {
+    let doc: serde_json::Value = serde_json::from_str(&std::fs::read_to_string(path).expect("replay file")).expect("json");
+    let rp = doc.get("replay").cloned().unwrap_or(doc);
+    let version = match rp.get("version").and_then(|x| x.as_str()) {
+        Some("HTTP/1.0") => http::Version::HTTP_10,
+        Some("HTTP/2.0") => http::Version::HTTP_2,
+        _ => http::Version::HTTP_11,
+    };
+    let host = rp.get("host").and_then(|x| x.as_str());
+    let uri = rp.get("uri").and_then(|x| x.as_str()).unwrap_or("/");
+    let sni = rp.get("sni").and_then(|x| x.as_str());
+    std::panic::set_hook(Box::new(|_| {}));
+    let got = run_case(version, host, uri, sni, true);
+    let _ = std::panic::take_hook();
+    let want = expected_forward(version, host, uri, sni);
+    println!("version {version:?} Host {host:?} uri {uri} sni {sni:?}: outcome {got:?}, reference: {}", match want { None => "no host named (don't care)".to_string(), Some(true) => "forward, marked validated".into(), Some(false) => "reject".into() });
+    let ok = match (want, &got) {
+        (_, Outcome::Panicked | Outcome::NotReady) => false,
+        (None, _) => true,
+        (Some(true), Outcome::Forwarded { validated: true }) => true,
+        (Some(false), Outcome::Rejected) => true,
+        _ => false,
+    };
+    if ok {
+        println!("replay holds");
+        0
+    } else {
+        println!("VIOLATION property=C20 replay={path}");
+        1
+    }
+}
+
 pub fn run(args: &Args) -> i32 {
+    if let Some(p) = &args.replay {
+        return replay(p);
+    }
     let mut run = Run::new("C20", args.tier, "model_checking");
     std::panic::set_hook(Box::new(|_| {}));
     let versions = [http::Version::HTTP_10, http::Version::HTTP_11, http::Version::HTTP_2];
